@@ -20,7 +20,8 @@ ITEMS = ["writer_chunking_enabled (ClientRequest._create_writer test)", "client_
          "default_accept", "default_content_type", "empty_body_status", "_update_transfer_encoding shape",
          "_update_body_from_data shape", "_send Connection block shape", "_prepare_headers keep-alive shape",
          "HttpResponseParser close default shape", "response empty_body rule",
-         "write_eof_only_after_success (_write_bytes try/except/else)"]
+         "write_eof_only_after_success (_write_bytes try/except/else)",
+         "continue_waiter_created / server_sends_100 (_update_expect_continue, _default_expect_handler)"]
 
 CR = "aiohttp/client_reqrep.py"
 
@@ -244,15 +245,57 @@ def generate() -> str:
                       and isinstance(n.value, ast.Constant) and n.value.value is False]
     if locals_cleared != ["keep_alive = False"]:
         raise TranslatorError(f"_prepare_headers: expected exactly one `keep_alive = False`, found {locals_cleared}")
-    # does the HTTP/1.0-without-length branch also clear the stored decision?  (`keep_alive = False` only
-    # changes the local that selects the Connection header; self._keep_alive was stored before)
+    # does the HTTP/1.0-without-length branch also clear the STORED decision (what web_protocol reads)?
+    #  - directly: `self._keep_alive = False` next to `keep_alive = False`;
+    #  - at the end of the body: the branch sets `self._close_delimited = True` and write_eof() does
+    #    `if self._close_delimited: self._keep_alive = False`;
+    #  - not at all (the local only selects the Connection header).
+    def _branch_of_local_clear():
+        for n in ast.walk(ph):
+            if isinstance(n, ast.If):
+                for blk in (n.body, n.orelse):
+                    if any(isinstance(x, ast.Assign) and ast.unparse(x) == "keep_alive = False" for x in blk):
+                        return [ast.unparse(x) for x in blk]
+        raise TranslatorError("_prepare_headers: branch of `keep_alive = False` not found")
+    branch = _branch_of_local_clear()
     stores = [ast.unparse(n) for n in ast.walk(ph) if isinstance(n, ast.Assign)
               and any(ast.unparse(t) == "self._keep_alive" for t in n.targets)]
-    if stores != ["self._keep_alive = keep_alive"]:
-        raise TranslatorError(f"_prepare_headers: stores to self._keep_alive: {stores}")
-    out.append("(* StreamResponse._prepare_headers, HTTP/1.0 response without length: `keep_alive = False` updates the local that\n"
-               "   selects the Connection header only; the decision web_protocol reads (self._keep_alive) was stored before *)\n"
-               "Definition h10_nolength_clears_stored_keepalive : bool := false.\n")
+    weof = core.find_function("aiohttp/web_response.py", "write_eof", cls="StreamResponse")
+    eof_clear = [ast.unparse(n) for n in ast.walk(weof) if isinstance(n, ast.If)
+                 and ast.unparse(n.test) == "self._close_delimited" and not n.orelse
+                 and [ast.unparse(x) for x in n.body] == ["self._keep_alive = False"]]
+    marks = [ast.unparse(n) for n in ast.walk(ph) if isinstance(n, ast.Assign)
+             and any(ast.unparse(t) == "self._close_delimited" for t in n.targets)]
+    if stores == ["self._keep_alive = keep_alive"] and not marks and not eof_clear:
+        cleared, how = False, "not cleared: `keep_alive = False` only changes the local that selects the Connection header"
+    elif stores == ["self._keep_alive = keep_alive"] and marks == ["self._close_delimited = True"] \
+            and "self._close_delimited = True" in branch and len(eof_clear) == 1:
+        cleared, how = True, "cleared by write_eof() at the end of the close-delimited body (self._close_delimited)"
+    elif sorted(stores) == ["self._keep_alive = False", "self._keep_alive = keep_alive"] and "self._keep_alive = False" in branch:
+        cleared, how = True, "cleared in _prepare_headers next to the local"
+    else:
+        raise TranslatorError(f"_prepare_headers/write_eof: unrecognised keep-alive stores {stores}, marks {marks}, write_eof {eof_clear}")
+    out.append("(* StreamResponse, HTTP/1.0 response with a body and no length: the decision web_protocol reads (self._keep_alive) is\n"
+               f"   {how} *)\n"
+               f"Definition h10_nolength_clears_stored_keepalive : bool := {'true' if cleared else 'false'}.\n")
+    # Expect: 100-continue: when does the client create the waiter, when does the server send the 100?
+    ue = core.find_function(CR, "_update_expect_continue", cls="ClientRequest")
+    conds = [ast.unparse(n.test) for n in ast.walk(ue) if isinstance(n, ast.If)
+             and any("self._continue = " in ast.unparse(x) for x in n.body)]
+    if conds == ["expect and self.version >= HttpVersion11"]:
+        waiter = "expect && v11"
+    elif conds == ["expect"]:
+        waiter = "expect"
+    else:
+        raise TranslatorError(f"_update_expect_continue: unrecognised waiter condition {conds}")
+    eh = core.find_function("aiohttp/web_urldispatcher.py", "_default_expect_handler")
+    tests = [ast.unparse(n.test) for n in ast.walk(eh) if isinstance(n, ast.If)]
+    if tests != ["request.version == HttpVersion11", "expect.lower() == '100-continue'"]:
+        raise TranslatorError(f"_default_expect_handler: unrecognised tests {tests}")
+    out.append("(* ClientRequest._update_expect_continue creates the 100-continue waiter under this condition; the server's default\n"
+               "   expect handler writes `100 Continue` only for an HTTP/1.1 request *)\n"
+               f"Definition continue_waiter_created (expect v11 : bool) : bool := {waiter}.\n"
+               "Definition server_sends_100 (expect v11 : bool) : bool := expect && v11.\n")
     pm = core.find_function("aiohttp/http_parser.py", "parse_message", cls="HttpResponseParser")
     _find_stmt(pm, _EXP_CLOSE_DEFAULT, "HttpResponseParser.parse_message close default")
     fd = core.find_function("aiohttp/http_parser.py", "feed_data", cls="HttpParser")
